@@ -460,6 +460,18 @@ def specC06 (s : St) (status : String) : List String :=
   ((s.evs.toList.filter (fun e => e.kind == "panic")).map (fun e => s!"SPECFAIL C06 thread {e.tid} panicked instead of returning")) ++
   (if status == "ok" && s.cfg.drain && !(has "drained") then ["SPECFAIL C06 drain did not return"] else []) ++
   (if status == "ok" && !(has "joined") then ["SPECFAIL C06 join did not return"] else []) ++
+  -- `drain` returns only after the last-stage handlers have caught up with everything published
+  (match (s.evs.toList.zipIdx.find? (fun (e, _) => e.kind == "drained")).map (·.2) with
+   | some dpos =>
+     let pc := (lookup s.locs "pc").getD "?"
+     let published := ((cursorUpdates s.evs pc).filter (fun (_, p) => p < dpos)).foldl (fun m (v, _) => Nat.max m v) 0
+     let hd := handledOf s.evs
+     let lastK := s.cfg.stages.length - 1
+     (((s.cfg.stages.getD lastK []).zipIdx).filterMap fun (_, j) =>
+        if published ≥ 1 && !(hd.any (fun g => g.k == lastK && g.j == j && g.seq == published && g.pos < dpos)) then
+          some s!"SPECFAIL C06 drain returned before last-stage handler {lastK}.{j} had caught up with sequence {published}"
+        else none)
+   | none => []) ++
   (let wb := (s.evs.filter (fun e => e.kind == "wbegin")).size
    let we := (s.evs.filter (fun e => e.kind == "wend")).size
    if status == "ok" && wb != we then [s!"SPECFAIL C06 {wb - we} write call(s) did not return"] else [])
